@@ -6,8 +6,11 @@ open IblVerif IblVerif.Proto IblVerif.Saturation
 /-!
 Line protocol for C16 (parsing/printing only; every computation is `Saturation.saturation` / `Saturation.mute`).
 
-    sat <dd> <md> <ns> <nc> <fs> <v> <p> <M> <win> <mv> <rows>
-        dd, md   32 | 64: precision of `data` and of `max_voltage`
+    sat <dd> <md> <sl> <ns> <nc> <fs> <v> <p> <M> <win> <mv> <rows>
+        dd       32 | 64 | i16 | i32 | i64: dtype of `data` (integer rows travel as decimal integers)
+        md       32 | 64: precision of `max_voltage`
+        sl       `64x` | `32r` | `32x`: precision NumPy selects for the division by `fs`, and whether `v_per_sec` is rounded
+                 to float32 for the comparison (determined on the Python side with `np.result_type` from the scalar types)
         fs v p   float64 bit patterns of the Python scalars; `d` = the default extracted from the source
                  (`Generated.SAT_V_PER_SEC`, `Generated.SAT_PROPORTION`; `fs` has no generated constant, always explicit)
         M        integer `mute_window_samples`, `d` = `Generated.SAT_MUTE_WINDOW`
@@ -55,7 +58,10 @@ def runSat {α μ : Type} (ops : Ops α μ Float) (ns : Nat) (data : List (List 
 
 def step (t : List String) : String :=
   match t with
-  | ["sat", dd, md, ns, nc, fs, v, p, M, win, mv, rows] =>
+  | ["sat", dd, md, sl, ns, nc, fs, v, p, M, win, mv, rows] =>
+    let div64 := sl.startsWith "64"
+    let vr32 := sl = "32r"
+    let ibits : Option Nat := if dd = "i16" then some 16 else if dd = "i32" then some 32 else if dd = "i64" then some 64 else none
     match nat? ns, nat? nc, f64? fs, scalar? (some (ratF Generated.SAT_V_PER_SEC)) v,
           scalar? (some (ratF Generated.SAT_PROPORTION)) p,
           (if M = "d" then some (Generated.SAT_MUTE_WINDOW : Int) else int? M), f64List? win with
@@ -69,17 +75,27 @@ def step (t : List String) : String :=
         | _, _ => "bad-op"
       | "32", "64" =>
         match rows? f32List? rows, f64List? mv with
-        | some d, some m => if shape d then runSat (ops3264 factor fs v p) ns d m M win else "bad-op shape"
+        | some d, some m => if shape d then runSat (ops3264 div64 vr32 factor fs v p) ns d m M win else "bad-op shape"
         | _, _ => "bad-op"
       | "32", "32" =>
         match rows? f32List? rows, f32List? mv with
-        | some d, some m => if shape d then runSat (ops3232 factor fs v p) ns d m M win else "bad-op shape"
+        | some d, some m => if shape d then runSat (ops3232 div64 vr32 factor fs v p) ns d m M win else "bad-op shape"
         | _, _ => "bad-op"
       | "64", "32" =>
         match rows? f64List? rows, f32List? mv with
         | some d, some m => if shape d then runSat (ops6432 factor fs v p) ns d m M win else "bad-op shape"
         | _, _ => "bad-op"
-      | _, _ => "bad-op"
+      | _, _ =>
+        match ibits, md with
+        | some bits, "64" =>
+          match rows? intList? rows, f64List? mv with
+          | some d, some m => if shape d then runSat (opsI64 bits div64 vr32 factor fs v p) ns d m M win else "bad-op shape"
+          | _, _ => "bad-op"
+        | some bits, "32" =>
+          match rows? intList? rows, f32List? mv with
+          | some d, some m => if shape d then runSat (opsI32 bits div64 vr32 factor fs v p) ns d m M win else "bad-op shape"
+          | _, _ => "bad-op"
+        | _, _ => "bad-op"
     | _, _, _, _, _, _, _ => "bad-op"
   | ["mute", win, fl] =>
     match f64List? win, flags? fl with
